@@ -3,11 +3,18 @@ import json
 import vlib
 
 
+# words that the specification spells in ASCII and the source text in other scripts
+PLACEHOLDERS = {"Ux663": "\u0663"}      # ARABIC-INDIC DIGIT THREE
+
+
 def _cases(res):
     out = []
     for p in res.prints:
         if p and p[0] == "CASE":
-            out.append(json.loads(p[1]))
+            txt = p[1]
+            for k, v in PLACEHOLDERS.items():
+                txt = txt.replace(k, v)
+            out.append(json.loads(txt))
     return out
 
 
